@@ -545,7 +545,18 @@ func monC08(f *Facts, explicitCancel bool) []Violation {
 			}
 		}
 		anyHardFail := firstFail >= 0
-		if !f.HasReload {
+		// The runner reads continue_running_tasks_after_failure from the definition in force (outside the statement), so
+		// rules (2) and (3) are judged only when that flag is the same in every definition of the history - a reload
+		// that changes other aspects (allow_failure of a task, scripts ...) does not suspend them.
+		contStable := true
+		for _, di := range f.Dumps {
+			if d := f.Log[di].Dump; d != nil && d.Defs != nil {
+				if pd, ok := d.Defs.Pipelines[j.Pipeline]; ok && pd.ContinueRunningTasksAfterFailure != cont {
+					contStable = false
+				}
+			}
+		}
+		if !f.HasReload || contStable {
 			if !cont && anyHardFail {
 				// (2) other tasks running when the failure is reported are told to stop
 				othersRunning := false
